@@ -187,6 +187,13 @@ struct crs {
     const crs& operator=(const crs &other) {
         free_data();
 
+        if (!own_data) {
+            // A non-owning view lets go of the user's arrays;
+            // the copy made below is owned (and freed) by this matrix.
+            ptr = 0; col = 0; val = 0;
+            own_data = true;
+        }
+
         nrows = other.nrows;
         ncols = other.ncols;
         nnz   = other.nnz;
